@@ -2,7 +2,9 @@
 C12 — the property itself as a Bool judge over observations of the real code (core-only).
 `judgeR`: one `ManagerImpl.Reload` against the simulated NGINX master.
 `judgeH`: a batch sequence through the real `eventHandlerImpl` (with the real runtime manager
-against the simulated master).
+against the simulated master and the real file manager over a fault-injecting file layer): a batch
+reported ok / Programmed=True / ready only if the on-disk set equals the generated set and the master
+runs that version.
 -/
 import NGF.Model.HandlerVer
 
@@ -32,10 +34,14 @@ structure Obs where
   chg     : Bool             -- simulator: children differ from pre-HUP content
   served  : Option Int       -- simulator: last version answered during this batch
   run     : Bool             -- simulator: the workers run exactly the files now on disk
+  full    : Option Bool      -- disk: the files on disk are exactly the generated set (if ReplaceFiles ran)
+  vd      : Option Nat       -- disk: version in the version file on disk after the batch (none: no such file)
   st      : Bool             -- statuses were issued in this batch
   gw      : String           -- Programmed status of the Gateway in the issued status ("T","F","U","N" = absent)
   ls      : String           -- Programmed status per listener, one char each
   rt      : String           -- Accepted status per route parent, one char each
+  sv      : String           -- Programmed status of the Gateway issued by the Service-upsert filter BEFORE the switch ("N": none)
+  svl     : String           -- … and per listener
   ready   : Bool             -- readyCheck == nil after the batch
   closes  : Nat              -- 1 if readyCh is closed
   panic   : Bool
@@ -46,11 +52,23 @@ def Obs.failed (o : Obs) : Bool :=
 
 def hasT (s : String) : Bool := s.toList.any (· == 'T')
 
-/-- walk the batches; `lastV` = highest version seen, `readyBefore`, `failedBefore`. -/
-def judgeHAux (plus : Bool) : List Obs → Option Nat → Bool → Bool → Option String
-  | [], _, _, _ => none
-  | o :: os, lastV, readyBefore, failedBefore =>
+/-- the batch did not go through `updateNginxConf` (no files, no reload) and yet issued statuses that
+say Programmed / Accepted, or made the pod ready — while the newest configuration that had to be
+loaded was NOT loaded (`stale`).  Known finding, see `plus_endpoints_only_resets_failed_reload`. -/
+def Obs.staleSuccess (o : Obs) (stale readyBefore : Bool) : Bool :=
+  stale && o.ct != .noChange && o.w.isNone &&
+    ((o.st && (o.gw == "T" || hasT o.ls || hasT o.rt)) || (!readyBefore && o.ready))
+
+/-- walk the batches; `lastV` = highest version seen, `readyBefore`, `failedBefore`, `stale` = the
+newest batch that went through `updateNginxConf` did not get its configuration loaded,
+`lastFailed` = the last batch that built a configuration failed (so the remembered result must say so:
+it is what the Service-upsert filter re-issues Gateway statuses from, whatever batches that applied
+nothing came in between). -/
+def judgeHAux (plus : Bool) : List Obs → Option Nat → Bool → Bool → Bool → Bool → Option String
+  | [], _, _, _, _, _ => none
+  | o :: os, lastV, readyBefore, failedBefore, stale, lastFailed =>
     if o.panic then some "handler_panicked"
+    else if lastFailed && (o.sv == "T" || hasT o.svl) then some "failure_forgotten_before_next_apply"
     else if o.closes > 1 then some "set_as_ready_once"
     else if o.ct != .noChange && o.v.isNone then some "no_version_for_applied_configuration"
     else if (match o.v, lastV with | some v, some l => decide (v ≤ l) | _, _ => false) then
@@ -61,11 +79,18 @@ def judgeHAux (plus : Bool) : List Obs → Option Nat → Bool → Bool → Opti
         !(o.hup && o.chg && o.served == o.rv.map Int.ofNat) then
       some "reload_ok_runs_version"
     else if o.rr == some true && !o.run then some "reload_ok_runs_written_files"
+    else if o.rr == some true && o.full == some false then some "reload_ok_partial_file_set"
+    else if o.rr == some true && o.full.isSome && o.vd != o.rv then
+      some "reload_ok_version_file_not_on_disk"
+    else if o.full == some false && o.st && (o.gw == "T" || hasT o.ls || hasT o.rt) then
+      some "programmed_with_partial_file_set"
+    else if o.full == some false && !readyBefore && o.ready then some "ready_with_partial_file_set"
     else if o.ct != .noChange && !o.failed && (!plus || o.ct == .clusterState) && o.rr != some true then
       some "success_without_reload"
     else if o.failed && !(o.st && o.gw != "T" && !hasT o.ls && !hasT o.rt) then
       some "failure_surfaces"
     else if o.failed && !readyBefore && o.ready then some "failure_keeps_unready"
+    else if o.staleSuccess stale readyBefore then some "stale_after_plus_endpoints_only_update"
     else if readyBefore && !o.ready then some "ready_latch"
     else if !readyBefore && o.ready &&
         !((o.ct != .noChange && !o.failed) || (o.ct == .noChange && !failedBefore)) then
@@ -73,8 +98,11 @@ def judgeHAux (plus : Bool) : List Obs → Option Nat → Bool → Bool → Opti
     else
       judgeHAux plus os (match o.v with | some v => some v | none => lastV) o.ready
         (failedBefore || o.failed)
+        (if o.w.isSome then (o.w == some false || o.rr != some true) else stale)
+        (if o.ct != .noChange then o.failed else lastFailed)
 
-def judgeH (plus : Bool) (os : List Obs) : Option String := judgeHAux plus os none false false
+def judgeH (plus : Bool) (os : List Obs) : Option String :=
+  judgeHAux plus os none false false false false
 
 /-- Several controller processes one after the other against the same NGINX master (the NGF
 container restarted): every process must satisfy `judgeH` on its own; a failure of the
